@@ -22,6 +22,7 @@ fn value_of(name: &str) -> V {
         "S" => 3,
         "D" => 4,
         "D_out" => 5,
+        "q" => 6,
         "Zjunk" => 9,
         _ => 7,
     })
@@ -140,6 +141,8 @@ fn programs() -> Vec<P> {
         P { name: "header A R, permuted list", header: vec!["A", "R"], body: vec![row(vec![l(1), l(2)]), row(vec![l(2), Entry::X])], sigs: perm() },
         // a bidirectional signal next to a real output that is called like its expected column
         P { name: "bidirectional D next to a real output D_out", header: vec!["A", "D", "D_out", "Q"], body: vec![row(vec![l(1), Entry::Z, Entry::X, l(1)]), row(vec![l(2), l(3), l(5), Entry::X]), row(vec![Entry::Paren(bin(BinOp::Add, name("D_out"), name("D"))), Entry::Z, Entry::X, Entry::X])], sigs: vec![Sig::inp("A", 4, 0), Sig::bidir("D", 4, V::Z), Sig::out("D_out", 4), Sig::out("Q", 4)] },
+        // two outputs whose names differ only in letter case
+        P { name: "outputs Q and q", header: vec!["A", "Q", "q"], body: vec![row(vec![l(1), l(1), l(6)]), row(vec![l(2), Entry::X, Entry::X]), row(vec![Entry::Paren(bin(BinOp::Sub, name("q"), name("Q"))), l(1), Entry::Z])], sigs: vec![Sig::inp("A", 4, 0), Sig::out("Q", 4), Sig::out("q", 4)] },
         P { name: "six rows", header: vec!["A", "Q"], body: (0..6).map(|j| row(vec![l(j), if j % 2 == 0 { Entry::X } else { l(1) }])).collect(), sigs: std() },
     ]
 }
@@ -203,7 +206,7 @@ fn deviations(names: &[String], all_outputs: &[String]) -> Vec<(String, Vec<Stri
 /// what it observes on a freshly loaded test (nothing may be remembered in the test).
 pub fn reuse_part(deadline: &Deadline) -> Stats {
     let progs = programs();
-    par_range("one loaded test used twice: every ordered pair of (first layout x values x driver variant | static iteration) over the 13 curated programs", progs.len() as u64, deadline, |u, st| {
+    par_range("one loaded test used twice: every ordered pair of (first layout x values x driver variant | static iteration) over the 14 curated programs", progs.len() as u64, deadline, |u, st| {
         let p = &progs[u as usize];
         let prog = Program { header: p.header.iter().map(|s| s.to_string()).collect(), body: p.body.clone() };
         let text = text(&prog);
@@ -236,7 +239,7 @@ pub fn reuse_part(deadline: &Deadline) -> Stats {
 /// programs, against a device that answers differently at every call, without and with one fault.
 pub fn api_use_part(deadline: &Deadline) -> Stats {
     let progs = programs();
-    par_range("iterator advanced with nth(1..3): 13 curated programs x 2 driver variants x {no fault, fault at call 1..6}", progs.len() as u64 * 2 * 7, deadline, |u, st| {
+    par_range("iterator advanced with nth(1..3): 14 curated programs x 2 driver variants x {no fault, fault at call 1..6}", progs.len() as u64 * 2 * 7, deadline, |u, st| {
         let p = &progs[(u / 14) as usize];
         let ov = u % 2 == 0;
         let fault_at = ((u / 2) % 7) as usize;
@@ -322,7 +325,7 @@ pub fn run(tier: Tier, seed: u64) -> i32 {
         id: "C13",
         tier,
         seed,
-        rule: "explicit-state BFS (stateright): 13 curated programs x every first layout (each subset of the output-capable signals, and the full set reversed) x 2 driver variants; at every call index the environment may answer normally, fail (constructor, output-reading and write-only calls), or depart from the first layout in every listed way (drop each entry, empty answer, append a foreign signal / a copy / an unsupplied output, duplicate over either neighbour, swap neighbours, substitute every other signal at every position); deviation budget 2 per history (3 for three programs in the thorough tier); the caller carries on after the error so that later rows are checked too; distinct_nontrivial = unique states".into(),
+        rule: "explicit-state BFS (stateright): 14 curated programs x every first layout (each subset of the output-capable signals, and the full set reversed) x 2 driver variants; at every call index the environment may answer normally, fail (constructor, output-reading and write-only calls), or depart from the first layout in every listed way (drop each entry, empty answer, append a foreign signal / a copy / an unsupplied output, duplicate over either neighbour, swap neighbours, substitute every other signal at every position); deviation budget 2 per history (3 for three programs in the thorough tier); the caller carries on after the error so that later rows are checked too; distinct_nontrivial = unique states".into(),
         assumptions: vec![
             "rows before the deviation are compared with the reference interpreter's fault-free run; the attribution rule is checked against the driver's own log for every returned row".into(),
             "a layout deviation in the discarded answer of a mid-clock call (driver without write_input override) is not specified by the property and is not injected".into(),
